@@ -119,6 +119,8 @@ W_Exp(e)     == ~(pc = "done" /\ \E b \in DataStart(lay) .. (lay.off - 5) :
 W_Exp2 == W_Exp(2)
 W_Exp3 == W_Exp(3)
 W_Exp4 == W_Exp(4)
+\* usable TLV space right above the point where the 3-byte length format starts to pay off, written to capacity
+W_RoomEdge   == ~(pc = "done" /\ op = "write" /\ lay.room \in {LongLen + 2, LongLen + 3} /\ Len(msg) = CodeCap(lay))
 W_FormatWipe == ~(pc = "done" /\ op = "format" /\ msg[1] < 256)
 W_Escape     == Confined
 W_NLayouts   == Cardinality(Layouts) < 0
